@@ -1,4 +1,5 @@
 import DaskModel.Lemmas.RelExprLemmas
+import DaskModel.Lemmas.OrRewriteLemmas
 /-!
 # C43 — the DataFrame optimizer preserves results and converges
 
@@ -565,5 +566,49 @@ example : checkStep ["a", "b"]
     (.proj ["b"] .src) = false := by decide
 
 example : WF ⟨["a", "b"], [[some 1, none], [some 2, some 3]]⟩ := ⟨by decide, by decide⟩
+
+end Dask.C43
+
+/-! ## `rewrite_filters` (the OR-of-AND rewrite of `Filter._simplify_up`), modelled as a function and proved sound -/
+namespace Dask.C43
+open Dask.OrRewrite
+
+/-- **soundness of `_replace_common_or_components`**: whatever it returns is equivalent to the OR of its inputs -/
+theorem replaceCommon_sound (σ : Nat → Bool) (first : P) (ors : List P) (q : P)
+    (h : replaceCommon first ors = some q) :
+    q.truth σ = (first.truth σ || ors.any (P.truth σ)) := by
+  unfold replaceCommon at h
+  have hfun : (fun c : P => ((andComps c).eraseDups).all (P.truth σ)) = P.truth σ := by
+    funext c; rw [all_eraseDups, ← truth_andComps]
+  rw [finish_sound σ _ _ q ?_ (by simp) h]
+  · rw [List.any_cons, all_eraseDups, ← truth_andComps, List.any_map]
+    simp only [Function.comp_def, hfun]
+  · intro comp hc r hr
+    simp only [shared, List.mem_filter, List.all_eq_true, List.contains_eq_mem, decide_eq_true_eq] at hr
+    rcases List.mem_cons.mp hc with h1 | h1
+    · subst h1; exact hr.1
+    · exact hr.2 comp h1
+
+/-- **soundness of `rewrite_filters`**: the rewritten predicate selects exactly the same rows -/
+theorem rewriteFilters_sound (σ : Nat → Bool) (p : P) : (rewriteFilters p).truth σ = p.truth σ := by
+  unfold rewriteFilters
+  split
+  · rename_i first second rest hoc
+    cases hrc : replaceCommon first (second :: rest) with
+    | none => rfl
+    | some q =>
+      simp only [Option.getD_some]
+      rw [replaceCommon_sound σ first (second :: rest) q hrc, truth_orComps σ p, hoc]
+      simp only [List.any_cons]
+  · rfl
+
+
+/-- the absorbing clause in every position: `(A & C) | A`, `A | (A & C)`, `(A & B) | A | (A & C)` all become `A` -/
+example : rewriteFilters (.or (.and (.atom 0) (.atom 2)) (.atom 0)) = .atom 0 := by decide
+example : rewriteFilters (.or (.atom 0) (.and (.atom 0) (.atom 2))) = .atom 0 := by decide
+example : rewriteFilters (.or (.or (.and (.atom 0) (.atom 1)) (.atom 0)) (.and (.atom 0) (.atom 2))) = .atom 0 := by decide
+/-- shared conjuncts are pulled out: `(A & C) | (A & D) ⟶ A & (C | D)`; nothing shared: unchanged -/
+example : rewriteFilters (.or (.and (.atom 0) (.atom 2)) (.and (.atom 3) (.atom 0))) = .and (.atom 0) (.or (.atom 2) (.atom 3)) := by decide
+example : rewriteFilters (.or (.and (.atom 0) (.atom 2)) (.atom 3)) = .or (.and (.atom 0) (.atom 2)) (.atom 3) := by decide
 
 end Dask.C43
